@@ -89,13 +89,22 @@ fn c20_enumerated(cx: &mut Ctx) {
     // (1) API: 4 tables x {G0,G1} x {SI,SO} x 256 code points
     for (code, table) in CODES {
         for slot in ["(", ")"] {
-            for shifted_out in [false, true] {
+            for (shifted_out, order) in [(false, 0), (true, 0), (false, 1), (true, 1), (false, 2), (true, 2)] {
                 idx += 1;
-                if !cx.mine(idx) || !cx.begin_group(&format!("api {} {} so={}", code, slot, shifted_out)) {
+                if !cx.mine(idx) || !cx.begin_group(&format!("api {} {} so={} order={}", code, slot, shifted_out, order)) {
                     continue;
                 }
-                let mut prefix = vec![Op::Api(Call::DefineCharset(code.into(), slot.into()))];
-                prefix.push(Op::Api(if shifted_out { Call::ShiftOut } else { Call::ShiftIn }));
+                // the same final state reached in three orders: designate then shift; shift then
+                // designate (into a slot that may already be in use); another set designated first,
+                // shift, then the designation replaced while the slot is in use
+                let define = Op::Api(Call::DefineCharset(code.into(), slot.into()));
+                let shift = Op::Api(if shifted_out { Call::ShiftOut } else { Call::ShiftIn });
+                let other = Op::Api(Call::DefineCharset(if code == "B" { "0" } else { "B" }.into(), slot.into()));
+                let prefix = match order {
+                    0 => vec![define, shift],
+                    1 => vec![shift, define],
+                    _ => vec![other, shift, define],
+                };
                 // active table: the designated one if its slot is the active slot, else the default of the active slot
                 let active = match (slot, shifted_out) {
                     ("(", false) | (")", true) => table,
@@ -109,7 +118,7 @@ fn c20_enumerated(cx: &mut Ctx) {
                         (Op::Api(Call::Draw(ch.to_string())), shown(chars[cp as usize]), format!("cp=0x{:02x}", cp))
                     })
                     .collect();
-                probe_cells(cx, PK::None, &prefix, &probes, "table", &format!("{}{}|so={}", slot, code, shifted_out), "API");
+                probe_cells(cx, PK::None, &prefix, &probes, "table", &format!("{}{}|so={}|ord={}", slot, code, shifted_out, order), "API");
                 // translation is per code point: a character above 255 in the same draw() call must
                 // not switch it off for its neighbours
                 let mixed: Vec<(Op, String, String)> = [0x5fu32, 0x61, 0x71, 0x7e, 0xe9, 0x6a]
@@ -289,7 +298,7 @@ fn c20_enumerated(cx: &mut Ctx) {
             .collect();
         probe_cells(cx, PK::None, &prefix, &probes, "save-restore", "-", "API");
     }
-    cx.stats.exhaustive_parts.insert("256 code points x 4 tables x {G0,G1} x {SI,SO} through Screen::draw; every drawable byte x the same 16 configurations through ByteParser and Parser in 8-bit mode; defaults after construction and RIS (256 x SI/SO); every designator final 0x30..=0x7e on both slots (API and parser); UTF-8 mode ignores shifts and designators; code points above 255".into());
+    cx.stats.exhaustive_parts.insert("256 code points x 4 tables x {G0,G1} x {SI,SO} x 3 orders of designating and shifting (designate-shift, shift-designate, re-designate the slot in use) through Screen::draw; every drawable byte x the same 16 configurations through ByteParser and Parser in 8-bit mode; defaults after construction and RIS (256 x SI/SO); every designator final 0x30..=0x7e on both slots (API and parser); UTF-8 mode ignores shifts and designators; code points above 255".into());
 }
 
 fn c20_cands(rng: &mut crate::rng::Rng, _pre: &crate::snapshot::Snap, _t: Tier) -> Vec<Cand> {
